@@ -541,15 +541,20 @@ class Queue(Greenlet):
         if not self.relay:
             return
         self._pool_spawn('store', self._load_all)
-        self._pool_spawn('store', self._wait_store)
-        while True:
-            self.queued_lock.acquire()
-            try:
-                now = time.time()
-                self._check_ready(now)
-            finally:
-                self.queued_lock.release()
-            self._wait_ready(now)
+        # Listening for announcements lasts as long as the queue does: it
+        # must not occupy a slot of a bounded store pool.
+        waiter = gevent.spawn(self._wait_store)
+        try:
+            while True:
+                self.queued_lock.acquire()
+                try:
+                    now = time.time()
+                    self._check_ready(now)
+                finally:
+                    self.queued_lock.release()
+                self._wait_ready(now)
+        finally:
+            waiter.kill(block=False)
 
 
 # vim:et:fdm=marker:sts=4:sw=4:ts=4
